@@ -53,6 +53,10 @@ def build(ctx):
             return None, ('instrument', 'instrumentation refused the source:\n' + out[-3000:])
         rc, out = C.run(['go', 'test', '-overlay', os.path.join(tmp, 'overlay.json'), '-vet=off', '-c', '-o',
                          os.path.join(tmp, 'harness.test'), '.'], cwd=C.REPO, env=C.GOENV, timeout=900)
+        if rc != 0 and ('cannot open file' in out or 'is not in std' in out):
+            time.sleep(5)   # shared Go build cache trimmed under the build: retry once
+            rc, out = C.run(['go', 'test', '-overlay', os.path.join(tmp, 'overlay.json'), '-vet=off', '-c', '-o',
+                             os.path.join(tmp, 'harness.test'), '.'], cwd=C.REPO, env=C.GOENV, timeout=900)
         if rc != 0:
             shutil.rmtree(tmp, ignore_errors=True)
             return None, ('harness-build', 'instrumented library + harness failed to compile:\n' + out[-4000:])
